@@ -84,6 +84,7 @@ fn base_event(name: &str, r: &Value, msg: &str, sink: &Shared) -> Map<String, Va
     if !msg.is_empty() {
         m.insert("msg".into(), json!(msg));
     }
+    m.insert("ops".into(), json!(sink.ops()));
     m.insert("pos".into(), json!(sink.pos().min(2147483647)));
     m.insert("len".into(), json!(sink.len().min(2147483647)));
     m
@@ -388,6 +389,7 @@ pub fn run_scenario(sc: &Value) -> Vec<Value> {
                 let base = archives.get(j).cloned().unwrap_or_default();
                 sink = Shared::new(base.clone());
                 apply_sink_opts(&sink, sc);
+                apply_sink_opts(&sink, op);
                 let r = catch_unwind(AssertUnwindSafe(|| ZipWriter::new_append(sink.clone())));
                 let (rj, msg) = res_json(&r);
                 let mut m = base_event("NewAppend", &rj, &msg, &sink);
@@ -649,9 +651,20 @@ pub fn run_scenario(sc: &Value) -> Vec<Value> {
             }
         }
     }
-    // release a still-living writer quietly (its Drop may finalize into the sink)
+    // release a still-living writer (its Drop may finalize into the sink); a panic here counts
+    let mut drop_panic = false;
     if let Some(mut wd) = writer.take() {
-        let _ = catch_unwind(AssertUnwindSafe(|| unsafe { ManuallyDrop::drop(&mut wd) }));
+        drop_panic = catch_unwind(AssertUnwindSafe(|| unsafe { ManuallyDrop::drop(&mut wd) })).is_err();
+    }
+    {
+        let s = sink.0.borrow();
+        let mut m = Map::new();
+        m.insert("ev".into(), json!("SinkOps"));
+        m.insert("ops".into(), json!(s.ops));
+        m.insert("faulted".into(), json!(s.faulted.map(|(k, kind)| json!([k, kind]))));
+        m.insert("drop_panic".into(), json!(drop_panic));
+        drop(s);
+        ex.ev(m);
     }
     ex.out
 }
@@ -663,6 +676,9 @@ fn apply_sink_opts(sink: &Shared, sc: &Value) {
     }
     if let Some(j) = sc.get("short_w_at").and_then(|x| x.as_u64()) {
         s.short_w = Short::At(j);
+    }
+    if let Some(k) = sc.get("fault_at").and_then(|x| x.as_u64()) {
+        s.fault_at = Some(k);
     }
 }
 
